@@ -234,4 +234,41 @@ theorem lexGo_ok_nil (cfg : LexCfg) : ∀ (l : List Char) (k : Nat) (pw : Bool) 
             cases hg : lexGo cfg (len - 1) (cfg.chars.isWord c) r (pos + 1) <;> simp [hg, consTok] at h
         | err e => simp [hr] at h
 
+/-! ### `re.escape` lengths (ply sorts the string rules by them) -/
+
+theorem escLen_append : ∀ (a b : List Char), escLen (a ++ b) = escLen a + escLen b
+  | [], b => by simp [escLen]
+  | c :: a, b => by simp [escLen, escLen_append a b, Nat.add_assoc]
+
+theorem escLen_pos {b : List Char} (h : b ≠ []) : 0 < escLen b := by
+  cases b with
+  | nil => exact absurd rfl h
+  | cons c r => simp only [escLen]; split <;> omega
+
+/-- a symbol that properly extends another one has the longer regex, so ply tries it first -/
+theorem escLen_lt_of_proper_prefix (a : List Char) {b : List Char} (h : b ≠ []) : escLen a < escLen (a ++ b) := by
+  rw [escLen_append]; have := escLen_pos h; omega
+
+/-! ### a concrete configuration: ASCII classes, the default operator table (for examples) -/
+
+def asciiChars : CharCfg :=
+  { isWord := fun c => c.isAlphanum || c == '_',
+    isDigit := fun c => c.isDigit,
+    digitVal := fun c => (c.toNat - 48) % 10,
+    digit_word := by intro c h; simp [Char.isAlphanum, h],
+    digit_lt := by intro c _; exact Nat.mod_lt _ (by decide),
+    underscore_word := by decide,
+    underscore_nondigit := by decide,
+    nonword := by
+      intro c h
+      simp only [nonWordChars, List.mem_cons, List.not_mem_nil, or_false] at h
+      rcases h with h | h | h | h | h | h | h | h | h | h | h | h | h | h | h | h | h <;> subst h <;> decide }
+
+def defaultOps : List (List Char) :=
+  [['.'], ['?', '.'], ['+'], ['-'], ['=', '~'], ['!', '~'], ['*'], ['/'], ['m', 'o', 'd'], ['>'], ['<'], ['>', '='],
+   ['<', '='], ['!', '='], ['='], ['i', 'n'], ['n', 'o', 't'], ['a', 'n', 'd'], ['o', 'r'], ['-', '>']]
+
+def asciiCfg : LexCfg :=
+  LexCfg.ofTable asciiChars defaultOps true true (some ['=', '>']) (fun _ => none) 4300
+
 end Yaql.Lexer
